@@ -71,11 +71,18 @@ fn run(line: &str) -> String {
     let config = list(field(line, "config"));
     let ops = list(field(line, "ops"));
     let timing = field(line, "timing"); // optional: "dur,delay,repeat,reverse" for component 0
+    // optional: per-component specs "dur;delay;repeat;reverse;keyframe position;keyframe value" (one keyframe: lead-in from the default
+    // / blended start value, held to the end), separated by '|'
+    let specs: Vec<String> = field(line, "specs").split('|').filter(|x| !x.is_empty()).map(|x| x.to_string()).collect();
     let mut k = 0usize;
     let mut cfg: Vec<Option<MergedTimeline<VTimeline>>> = vec![];
     let mut total: Vec<f32> = vec![];
     let tot = |k: usize| -> f32 {
-        if k == 0 && !timing.is_empty() {
+        if k < specs.len() {
+            let p: Vec<&str> = specs[k].split(';').collect();
+            let d: f32 = p[0].parse().unwrap(); let dl: f32 = p[1].parse().unwrap();
+            match p[2] { "none" => dl + d, "inf" => f32::INFINITY, n => dl + d * (n.parse::<u64>().unwrap() + 1) as f32 }
+        } else if k == 0 && !timing.is_empty() {
             let p: Vec<&str> = timing.split(';').collect();
             let d: f32 = p[0].parse().unwrap(); let dl: f32 = p[1].parse().unwrap();
             match p[2] { "none" => dl + d, "inf" => f32::INFINITY, n => dl + d * (n.parse::<u64>().unwrap() + 1) as f32 }
@@ -83,7 +90,12 @@ fn run(line: &str) -> String {
     };
     for c in config.iter() {
         let mk = |k: usize| -> VTimeline {
-            if k == 0 && !timing.is_empty() {
+            if k < specs.len() {
+                let p: Vec<&str> = specs[k].split(';').collect();
+                let rep = match p[2] { "none" => Repeat::None, "inf" => Repeat::Infinite, n => Repeat::Times(n.parse().unwrap()) };
+                V::timeline().duration_seconds(p[0].parse().unwrap()).delay_seconds(p[1].parse().unwrap()).repeat(rep).reverse(p[3] == "true")
+                    .keyframe(V::keyframe(p[4].parse().unwrap()).x(p[5].parse().unwrap())).build()
+            } else if k == 0 && !timing.is_empty() {
                 let p: Vec<&str> = timing.split(';').collect();
                 let rep = match p[2] { "none" => Repeat::None, "inf" => Repeat::Infinite, n => Repeat::Times(n.parse().unwrap()) };
                 component(k, p[0].parse().unwrap(), p[1].parse().unwrap(), rep, p[3] == "true")
